@@ -217,6 +217,12 @@ def run(res, f, tier):
     ob(not bad and any(r["ret"] == ALL for r in rows) and any(r["conds"].get(NX) == "fails" for r in rows), "C15|identifier",
        "a name is a valid identifier only if its first character is '_' or XID_Start AND all remaining characters are XID_Continue (empty: no): offending paths %s" % bad)
     rows = summ(f, reserved, ["name"])
+    # the keyword table shows either by name or, when the constant was read, by its contents
+    TABLE = re.compile(r"array\((?:'[a-z_]+'(?:, )?)+\)")
+    for r in rows:
+        r["ret"] = TABLE.sub("'expr::keywords::KEYWORDS'", r["ret"])
+        r["calls"] = [tuple(TABLE.sub("'expr::keywords::KEYWORDS'", x) if isinstance(x, str) else x for x in c) for c in r["calls"]]
+        r["conds"] = {TABLE.sub("'expr::keywords::KEYWORDS'", k): v for k, v in r["conds"].items()}
     member_contains = len(rows) == 1 and rows[0]["ret"].startswith("[str]::contains('") and rows[0]["ret"].endswith("', name)")
     # a binary search is a membership test only on a table sorted in the order the search compares by (byte order of &str)
     member_bsearch = False
